@@ -156,6 +156,8 @@ int main(int argc, char **argv)
       {"grids-keepHills-rebin-narrower", 0, true, 1, 0, 1.0, 0, true, false, false, -4.0, 9.0, true},
       {"grids-hardLowerBoundary-only", 0, true, 1, 0, 1.0, 0, false, false, false, 0.0, 3.0, false, 1},
       {"grids-hardUpperBoundary-only-hw2", 0, true, 1, 0, 2.0, 0, false, false, false, 1.0, 3.5, false, 2},
+      {"grids-hw1-variable-far-below-the-grid", 0, true, 1, 0, 1.0, 0, false, false, false, 3.5, 4.5},   // (0.4 to 6.6 bins outside: every hill is kept for analytic use)
+      {"grids-wellTempered-variable-far-below-the-grid", 0, true, 1, 0, 2.0, 0, false, true, false, 3.5, 4.5},
       {"grids-from-a-grid-block", 0, true, 1, 0, 1.0, 0, false, false, false, 1.0, 3.0, false, 0, true},
       {"grids-2d-from-a-grid-block", 2, true, 1, 0, 2.0, 0, false, false, false, 1.0, 3.0, false, 0, true},
   };
